@@ -273,11 +273,7 @@ func Program(w *WF, rt *Runtime) {
 	case len(w.RunTo) == 0:
 		wf.Run()
 	case w.RunToMode == 1:
-		pats := make([]string, len(w.RunTo))
-		for i, t := range w.RunTo {
-			pats[i] = "^" + t + "$"
-		}
-		wf.RunToRegex(pats...)
+		wf.RunToRegex(w.RunTo...) // patterns as given (unanchored, like the library documents)
 	case w.RunToMode == 2:
 		var ps []sp.WorkflowProcess
 		for _, t := range w.RunTo {
